@@ -27,14 +27,14 @@ func (r SatResult) String() string {
 }
 
 type SolverStats struct {
-	Queries  int
-	Sat      int
-	Unsat    int
-	Unknown  int
-	Errors   int
-	Time     time.Duration
-	MaxQuery time.Duration
-	Restarts int
+	Queries     int
+	Sat         int
+	Unsat       int
+	Unknown     int
+	Errors      int
+	Time        time.Duration
+	MaxQuery    time.Duration
+	Restarts    int
 	ValuesTime  time.Duration
 	ValuesCalls int
 }
